@@ -190,11 +190,14 @@ def check_raw(case, env):
             v = viol("raw|ubsan|" + sanitizer_signature(listing["stderr"]), ctx + listing["stderr"][:800])
         elif listing.get("good"):
             total = 0
+            seen_names = set()
             for e in listing["files"]:
                 if e.get("too_big") or e["size"] > len(blob):
                     v = viol("raw|size-from-header", ctx + "entry %r claims %d bytes in a %d byte file" % (e["name"], e.get("too_big") or e["size"], len(blob)))
                     break
-                total += len(e.get("data") or "")
+                if e["name"].lower() not in seen_names:       # entries are read by name: a duplicate name reads the same bytes again
+                    total += len(e.get("data") or "")
+                seen_names.add(e["name"].lower())
             if v is None and total > len(blob):
                 v = viol("raw|more-bytes-than-file", ctx + "the entries yield %d bytes, the file has %d" % (total, len(blob)))
             if v is None and ref:
